@@ -878,7 +878,12 @@ fn decode_attrs(attrs: &[Attribute]) -> AState {
                 None => st.opaque = true,
             },
             Attribute::AS_PATH => match a.binary().and_then(|b| parse_path(b)) {
-                Some(p) => st.path = Some(p),
+                Some(p) => {
+                    if p.iter().any(|(t, _)| !(1..=4).contains(t)) {
+                        st.opaque = true; // undefined segment type: no-panic only
+                    }
+                    st.path = Some(p)
+                }
                 None => st.opaque = true,
             },
             Attribute::COMMUNITY => match a.binary() {
@@ -2019,12 +2024,21 @@ fn path_bytes(p: &Path) -> Vec<u8> {
 }
 
 /// the attribute list of a route as (flags, code, value bytes) — wire form
-fn gen_wire_attrs(rng: &mut Rng, v6_mp: bool) -> Vec<(u8, u8, Vec<u8>)> {
+/// `strict`: only shapes a conforming UPDATE carries (no zero-count segments,
+/// no zero-length community lists) so that the wire decoder accepts them;
+/// otherwise everything the attribute API can express.
+fn gen_wire_attrs(rng: &mut Rng, v6_mp: bool, strict: bool) -> Vec<(u8, u8, Vec<u8>)> {
     let mut v: Vec<(u8, u8, Vec<u8>)> = Vec::new();
     if !rng.chance(1, 40) {
         v.push((0x40, 1, vec![rng.below(3) as u8]));
     }
-    if let Some(p) = gen_path(rng) {
+    if let Some(mut p) = gen_path(rng) {
+        if strict {
+            p.retain(|(_, v)| !v.is_empty());
+        } else if rng.chance(1, 40) {
+            // the API does not validate the segment type octet
+            p.push((*rng.pick(&[0u8, 5, 255]), vec![65001]));
+        }
         v.push((0x40, 2, path_bytes(&p)));
     }
     if !v6_mp {
@@ -2045,7 +2059,7 @@ fn gen_wire_attrs(rng: &mut Rng, v6_mp: bool) -> Vec<(u8, u8, Vec<u8>)> {
         v.push((0xC0, 7, b));
     }
     if rng.chance(3, 5) {
-        let n = *rng.pick(&[0usize, 1, 1, 2, 3, 4]);
+        let n = (*rng.pick(&[0usize, 1, 1, 2, 3, 4])).max(strict as usize);
         let mut b = Vec::new();
         for _ in 0..n {
             b.extend_from_slice(&rng.pick(&COMMS).to_be_bytes());
@@ -2060,7 +2074,7 @@ fn gen_wire_attrs(rng: &mut Rng, v6_mp: bool) -> Vec<(u8, u8, Vec<u8>)> {
     }
     if rng.chance(1, 2) {
         let ev = ext_values();
-        let n = *rng.pick(&[0usize, 1, 1, 2, 3]);
+        let n = (*rng.pick(&[0usize, 1, 1, 2, 3])).max(strict as usize);
         let mut b = Vec::new();
         for _ in 0..n {
             b.extend_from_slice(&rng.pick(&ev[..])[..]);
@@ -2068,7 +2082,7 @@ fn gen_wire_attrs(rng: &mut Rng, v6_mp: bool) -> Vec<(u8, u8, Vec<u8>)> {
         v.push((0xC0, 16, b));
     }
     if rng.chance(1, 2) {
-        let n = *rng.pick(&[0usize, 1, 1, 2, 3]);
+        let n = (*rng.pick(&[0usize, 1, 1, 2, 3])).max(strict as usize);
         let mut b = Vec::new();
         for _ in 0..n {
             let l = rng.pick(&LARGES);
@@ -2237,9 +2251,10 @@ fn gen_route(rng: &mut Rng, w: &World, rep: &mut Report) -> RouteCtx {
     };
     let src = rng.usize(w.sources.len());
     let is_ebgp = matches!(w.sources[src].0.role, PeerRole::Ebgp);
-    let wire_attrs = gen_wire_attrs(rng, fam != Fam::V4);
+    let try_wire = rng.chance(3, 5);
+    let wire_attrs = gen_wire_attrs(rng, fam != Fam::V4, try_wire);
     let mut done = None;
-    if rng.chance(3, 5) {
+    if try_wire {
         if let Some((nlri, attrs, nh, hx)) = decode_update(fam, (v6, addr, len), &wire_attrs, is_ebgp) {
             rep.count("route-source:wire-decoder");
             done = Some((nlri, attrs, nh, Some(hx)));
@@ -2290,6 +2305,9 @@ fn shape_counters(rep: &mut Report, r: &RouteCtx) {
                 if p.iter().any(|(x, _)| *x == t) {
                     rep.count(&format!("path:segment-type-{}", t));
                 }
+            }
+            if p.iter().any(|(x, _)| !(1..=4).contains(x)) {
+                rep.count("path:undefined-segment-type(api)");
             }
             if path_len(p).0 > 255 {
                 rep.count("path:over-255-hops");
